@@ -574,7 +574,7 @@ func TestC11(t *testing.T) {
 		HangIsViolationFor: []string{"C11"},
 		Gates: map[string]map[string]int{
 			"quick":    {"scenarios": 600, "exports_at_the_concurrency_bound": 300, "exports_during_shutdown": 100, "interleaving_signatures": 200, "goroutine_scans_after_shutdown": 30, "cancel_window_points_enumerated": 300, "delay_sweep_single_delays_enumerated": 1000},
-			"thorough": {"scenarios": 20000, "exports_at_the_concurrency_bound": 10000, "exports_during_shutdown": 3000, "interleaving_signatures": 399, "goroutine_scans_after_shutdown": 600, "cancel_window_points_enumerated": 5000, "delay_sweep_single_delays_enumerated": 30000},
+			"thorough": {"scenarios": 20000, "exports_at_the_concurrency_bound": 10000, "exports_during_shutdown": 3000, "interleaving_signatures": 399, "goroutine_scans_after_shutdown": 600, "cancel_window_points_enumerated": 4000, "delay_sweep_single_delays_enumerated": 30000},
 		},
 	})
 	e := r.Env
